@@ -510,7 +510,7 @@ func shrink(b *build, rf *replayFile, kind string, want map[string]bool, budget 
 // process, and compares what they observed (digest) with what the same tape
 // observed inside a long-lived worker after many other runs. A difference
 // means some process-global state carried over between runs.
-func crossProcess(b *build, prop, tier string, seed uint64, tc tierCfg, repo string, bt *batch, max int) (checked int, viols []*resLine, files []*replayFile) {
+func crossProcess(b *build, prop, tier string, seed uint64, tc tierCfg, repo string, bt *batch, max int) (checked int, viols []*resLine, files []*replayFile, nondet int) {
 	var cands []*resLine
 	for i := range bt.lines {
 		l := &bt.lines[i]
@@ -548,6 +548,29 @@ func crossProcess(b *build, prop, tier string, seed uint64, tc tierCfg, repo str
 		}
 		checked++
 		if o.fl.Digest != o.l.Digest {
+			// Before this is called a dependence on process history, it must
+			// be a repeatable one: the tape alone gives the same digest every
+			// time, and the worker slice re-executed up to the run gives the
+			// in-worker digest again. Otherwise the run is not a function of
+			// its tape (code under test that blocks on channels can leave the
+			// simulator a real-time window, DESIGN 10.3) and says nothing.
+			rf := &replayFile{Property: prop, Seed: seed, RunIndex: o.l.Index, Opts: optsFor(tier, repo), Tape: o.l.Tape}
+			stable := true
+			for k := 0; k < 2 && stable; k++ {
+				f2, err := replayTape(b, rf, fmt.Sprintf("xpc%d_%d", o.l.Index, k))
+				stable = err == nil && f2 != nil && f2.Digest == o.fl.Digest
+			}
+			if stable && len(viols) < 2 {
+				args := []string{"-prop", prop, "-seed", strconv.FormatUint(seed, 10), "-tier", tier, "-from", "0", "-to", strconv.FormatUint(o.l.Index+1, 10),
+					"-stride", strconv.FormatUint(uint64(tc.workers), 10), "-offset", strconv.FormatUint(o.l.Index%uint64(tc.workers), 10), "-repo", repo}
+				lines, _, err := runWorker(b, args, fmt.Sprintf("xps%d", o.l.Index), 0, time.Hour)
+				stable = err == nil && len(lines) > 0 && lines[len(lines)-1].Index == o.l.Index && lines[len(lines)-1].Digest == o.l.Digest
+			}
+			if !stable {
+				nondet++
+				fmt.Printf("NONDETERMINISTIC-RUN property=%s run=%d: the run's observations are not a function of its tape (digest differs between repetitions); not judged\n", prop, o.l.Index)
+				continue
+			}
 			v := rt.Violation{Kind: "process-history", Key: "process-history:" + o.l.Config, Step: 0,
 				Detail: fmt.Sprintf("run %d observed digest %s inside a worker that had executed earlier runs, but %s when its tape is replayed alone in a fresh process: results depend on what ran earlier in the process (process-global state)", o.l.Index, o.l.Digest, o.fl.Digest)}
 			o.l.Violations = append(o.l.Violations, v)
@@ -738,7 +761,7 @@ func cmdCheck(prop, tier string, seed uint64, repo string) int {
 	if tier == "thorough" {
 		xpMax = 256
 	}
-	xpChecked, _, xpFiles := crossProcess(b, prop, tier, seed, tc, repo, bt, xpMax)
+	xpChecked, _, xpFiles, xpNondet := crossProcess(b, prop, tier, seed, tc, repo, bt, xpMax)
 	xpByIndex := map[uint64]*replayFile{}
 	for _, f := range xpFiles {
 		xpByIndex[f.RunIndex] = f
@@ -853,6 +876,7 @@ func cmdCheck(prop, tier string, seed uint64, repo string) int {
 		extra["new_violation_keys"] = newKeys
 	}
 	extra["fresh_process_replays_compared"] = xpChecked
+	extra["nondeterministic_runs_not_judged"] = xpNondet
 	if err := writeEvidence(prop, tier, seed, b, bt, tc, len(newKeys), knownHit, extra); err != nil {
 		fmt.Printf("INFRASTRUCTURE-ERROR writing evidence: %v\n", err)
 		return 2
